@@ -35,6 +35,9 @@ type epoch struct {
 }
 
 type chanObs struct {
+	// block tables of the run the records come from (nil: the world's)
+	blockFirst []int
+	blockStamp []time.Time
 	recs   []recObs
 	epochs []epoch
 }
@@ -319,15 +322,19 @@ func checkExcerpts(w *pipeWorld, c int, o *chanObs) {
 		var cands []time.Time
 		// (ro.cycle counts hand-overs the producer task has completed; the block being processed may
 		// not be counted yet, hence <=)
-		for b := 0; b < len(w.blockFirst) && b <= ro.cycle; b++ {
+		bFirst, bStamp := w.blockFirst, w.blockStamp
+		if o.blockFirst != nil {
+			bFirst, bStamp = o.blockFirst, o.blockStamp
+		}
+		for b := 0; b < len(bFirst) && b <= ro.cycle; b++ {
 			end := w.sent
-			if b+1 < len(w.blockFirst) {
-				end = w.blockFirst[b+1]
+			if b+1 < len(bFirst) {
+				end = bFirst[b+1]
 			}
 			if end < lo+L {
 				continue // the record's last sample had not been delivered yet
 			}
-			want := w.blockStamp[b].Add(time.Duration(k-w.blockFirst[b]) * w.period)
+			want := bStamp[b].Add(time.Duration(k-bFirst[b]) * w.period)
 			cands = append(cands, want)
 			if r.trigTime.Equal(want) {
 				okTime = true
